@@ -57,7 +57,9 @@ def run(ctx):
                 ctx.count("R-C05-ROOTS")
             except (Unsupported, AnchorMissing) as e:
                 ctx.violation("R-C05-UNSUPPORTED", b["def"], (b["span"]["file"], b["span"]["line"], b["def"]), str(e))
-    missing = check_visited(ctx, A, bodies, "R-C05-RECHECK")
+    from .totality import is_root, ts_helper_names
+    hs = ts_helper_names(A)
+    missing = check_visited(ctx, A, bodies, "R-C05-RECHECK", F, [b["def"] for b in bodies if is_root(b) and b["def"] not in hs])
     for b in missing:
         if ctx.is_reviewed("R-C05-VISITED", b["def"]):
             continue
